@@ -653,18 +653,23 @@ package tabular
 //@ -- setLoc(owner, target): the callback set a supported registration addresses
 //@ spec opaque setLoc(o Iface, target int) Loc = dyn(o) == type[*ATable] ? (target == 0 ? fldloc(o.(*ATable), 7) : (target == 1 ? fldloc(o.(*ATable), 8) : fldloc(o.(*ATable), 9))) : (dyn(o) == type[*column] ? (target == 0 ? fldloc(o.(*column), 3) : fldloc(o.(*column), 2)) : (dyn(o) == type[*Row] ? (target == 1 ? fldloc(o.(*Row), 3) : fldloc(o.(*Row), 4)) : fldloc(o.(*Cell), 6)))
 
+//@ -- effOwner(tb, o): a renderer wrapper (any Table that is not the core table) passed as owner stands for the receiver
+//@ spec opaque effOwner(tb *ATable, o Iface) Iface = (dyn(o) != type[*ATable] && impl(dyn(o), Table)) ? mkiface(type[*ATable], box(tb)) : o
+
 //@ -- grewBy(new, old, cb): slice `new` is `old` with cb appended
 //@ pred grewBy(n []PropertyCallback, o []PropertyCallback, hn (Array Loc Iface), ho (Array Loc Iface), cb Iface) = len(n) == len(o) + 1 && hn[elemloc(n, len(o))] === cb && forall i int :: {hn[elemloc(n, i)]} 0 <= i && i < len(o) ==> hn[elemloc(n, i)] === ho[elemloc(o, i)]
 
 //@ func (*ATable).RegisterPropertyCallback
 //@   tags C13,C10,C09
+//@   requires [receiver-live] tb != nil
 //@   requires [owner-live] (dyn(owner) == type[*ATable] ==> owner.(*ATable) != nil) && (dyn(owner) == type[*column] ==> owner.(*column) != nil) && (dyn(owner) == type[*Row] ==> owner.(*Row) != nil) && (dyn(owner) == type[*Cell] ==> owner.(*Cell) != nil)
-//@   assigns when supported(dyn(owner), target): loc(callbackSet.addTime, fldloc(setLoc(owner, target), 0)), when supported(dyn(owner), target): loc(callbackSet.preCellRenderTime, fldloc(setLoc(owner, target), 1)), when supported(dyn(owner), target): loc(callbackSet.renderTime, fldloc(setLoc(owner, target), 2)), when supported(dyn(owner), target): loc(callbackSet.postCellRenderTime, fldloc(setLoc(owner, target), 3)), heap[[]PropertyCallback]
-//@   ensures [matrix] result == nil <==> (supported(dyn(owner), target) && 0 <= when && when <= 3) @C13
-//@   ensures [registered-add] result == nil && when == 0 ==> grewBy(heap[callbackSet.addTime][fldloc(setLoc(owner, target), 0)], old(heap[callbackSet.addTime][fldloc(setLoc(owner, target), 0)]), heap[[]PropertyCallback], old(heap[[]PropertyCallback]), theNewCallback) @C13
-//@   ensures [registered-precell] result == nil && when == 1 ==> grewBy(heap[callbackSet.preCellRenderTime][fldloc(setLoc(owner, target), 1)], old(heap[callbackSet.preCellRenderTime][fldloc(setLoc(owner, target), 1)]), heap[[]PropertyCallback], old(heap[[]PropertyCallback]), theNewCallback) @C13
-//@   ensures [registered-render] result == nil && when == 2 ==> grewBy(heap[callbackSet.renderTime][fldloc(setLoc(owner, target), 2)], old(heap[callbackSet.renderTime][fldloc(setLoc(owner, target), 2)]), heap[[]PropertyCallback], old(heap[[]PropertyCallback]), theNewCallback) @C13
-//@   ensures [registered-postcell] result == nil && when == 3 ==> grewBy(heap[callbackSet.postCellRenderTime][fldloc(setLoc(owner, target), 3)], old(heap[callbackSet.postCellRenderTime][fldloc(setLoc(owner, target), 3)]), heap[[]PropertyCallback], old(heap[[]PropertyCallback]), theNewCallback) @C13
+//@   assigns when supported(dyn(effOwner(tb, owner)), target): loc(callbackSet.addTime, fldloc(setLoc(effOwner(tb, owner), target), 0)), when supported(dyn(effOwner(tb, owner)), target): loc(callbackSet.preCellRenderTime, fldloc(setLoc(effOwner(tb, owner), target), 1)), when supported(dyn(effOwner(tb, owner)), target): loc(callbackSet.renderTime, fldloc(setLoc(effOwner(tb, owner), target), 2)), when supported(dyn(effOwner(tb, owner)), target): loc(callbackSet.postCellRenderTime, fldloc(setLoc(effOwner(tb, owner), target), 3)), heap[[]PropertyCallback]
+//@   ensures [wrapper-owner-is-the-table] dyn(owner) != type[*ATable] && impl(dyn(owner), Table) && 0 <= target && target <= 2 && 0 <= when && when <= 3 ==> result == nil @C10
+//@   ensures [matrix] result == nil <==> (supported(dyn(effOwner(tb, owner)), target) && 0 <= when && when <= 3) @C13
+//@   ensures [registered-add] result == nil && when == 0 ==> grewBy(heap[callbackSet.addTime][fldloc(setLoc(effOwner(tb, owner), target), 0)], old(heap[callbackSet.addTime][fldloc(setLoc(effOwner(tb, owner), target), 0)]), heap[[]PropertyCallback], old(heap[[]PropertyCallback]), theNewCallback) @C13
+//@   ensures [registered-precell] result == nil && when == 1 ==> grewBy(heap[callbackSet.preCellRenderTime][fldloc(setLoc(effOwner(tb, owner), target), 1)], old(heap[callbackSet.preCellRenderTime][fldloc(setLoc(effOwner(tb, owner), target), 1)]), heap[[]PropertyCallback], old(heap[[]PropertyCallback]), theNewCallback) @C13
+//@   ensures [registered-render] result == nil && when == 2 ==> grewBy(heap[callbackSet.renderTime][fldloc(setLoc(effOwner(tb, owner), target), 2)], old(heap[callbackSet.renderTime][fldloc(setLoc(effOwner(tb, owner), target), 2)]), heap[[]PropertyCallback], old(heap[[]PropertyCallback]), theNewCallback) @C13
+//@   ensures [registered-postcell] result == nil && when == 3 ==> grewBy(heap[callbackSet.postCellRenderTime][fldloc(setLoc(effOwner(tb, owner), target), 3)], old(heap[callbackSet.postCellRenderTime][fldloc(setLoc(effOwner(tb, owner), target), 3)]), heap[[]PropertyCallback], old(heap[[]PropertyCallback]), theNewCallback) @C13
 //@   ensures [refused-changes-nothing] result != nil ==> heap[callbackSet.addTime] === old(heap[callbackSet.addTime]) && heap[callbackSet.renderTime] === old(heap[callbackSet.renderTime]) && heap[callbackSet.preCellRenderTime] === old(heap[callbackSet.preCellRenderTime]) && heap[callbackSet.postCellRenderTime] === old(heap[callbackSet.postCellRenderTime]) @C13
 
 //@ -- ---------------------------------------------------------------------
